@@ -16,9 +16,9 @@ import (
 
 func init() {
 	register(&Check{ID: "C18", Run: runC18, Expl: oblig.Explanation{
-		Text: "Static authentication-prefix check. (R1) In (*Dialer).connect and (*connGroup).connect, when a SASL mechanism is configured, no path hands the connection out (return of the *Conn / start of the conn goroutine and return of the conn) without passing the err == nil edge of the test made on the result of the authentication call; every failing path after the connection exists closes it (Dialer) / leaves the deferred closer armed (Transport). (R2) before that edge the fresh connection is used only for the allowed exchanges: the functions reachable from the Dialer's authenticateSASL write only API keys {ApiVersions, SaslHandshake, SaslAuthenticate} (plus the raw length-prefixed token exchange); the Transport's pre-authentication uses of the protocol.Conn are RoundTrip(*apiversions.Request), SetDeadline, SetVersions, and authenticateSASL only round-trips saslhandshake/saslauthenticate requests. (R3) raw versus framed: (*Conn).saslAuthenticate frames iff the negotiated SaslHandshake version is v1; saslauthenticate.Request.Required is true iff versions[SaslHandshake] == 0. (R4) both authentication loops return a non-nil error for a failed handshake, Start, authenticate (EOF → SASLAuthenticationFailed) or Next, and nil only after the loop completed. (R5) necessary constructor facts: SCRAM uses the SASLprep-ing NewClient; PLAIN sends \\x00user\\x00password. Not decided: that PLAIN/SCRAM conversations complete exactly for right credentials (cryptographic values; delegated to xdg-go/scram).",
-		Rule: "one obligation per hand-out site, per reachable request writer, per loop exit; non-trivial = a path or reachability query was evaluated",
-		Trusted: []string{"go/ssa, static call graph of the root package", "API key constants of the root package"},
+		Text:        "Static authentication-prefix check. (R1) In (*Dialer).connect and (*connGroup).connect, when a SASL mechanism is configured, no path hands the connection out (return of the *Conn / start of the conn goroutine and return of the conn) without passing the err == nil edge of the test made on the result of the authentication call; every failing path after the connection exists closes it (Dialer) / leaves the deferred closer armed (Transport). (R2) before that edge the fresh connection is used only for the allowed exchanges: the functions reachable from the Dialer's authenticateSASL write only API keys {ApiVersions, SaslHandshake, SaslAuthenticate} (plus the raw length-prefixed token exchange); the Transport's pre-authentication uses of the protocol.Conn are RoundTrip(*apiversions.Request), SetDeadline, SetVersions, and authenticateSASL only round-trips saslhandshake/saslauthenticate requests. (R3) raw versus framed: (*Conn).saslAuthenticate frames iff the negotiated SaslHandshake version is v1; saslauthenticate.Request.Required is true iff versions[SaslHandshake] == 0. (R4) both authentication loops return a non-nil error for a failed handshake, Start, authenticate (EOF → SASLAuthenticationFailed) or Next, and nil only after the loop completed. (R5) necessary constructor facts: SCRAM uses the SASLprep-ing NewClient; PLAIN sends \\x00user\\x00password. Not decided: that PLAIN/SCRAM conversations complete exactly for right credentials (cryptographic values; delegated to xdg-go/scram).",
+		Rule:        "one obligation per hand-out site, per reachable request writer, per loop exit; non-trivial = a path or reachability query was evaluated",
+		Trusted:     []string{"go/ssa, static call graph of the root package", "API key constants of the root package"},
 		Assumptions: []string{"a connection is 'handed out' by returning it or by starting its request loop"},
 	}})
 }
@@ -37,7 +37,7 @@ func runC18(p *load.Program, r *oblig.Report) {
 func authGate(fn *ssa.Function, authName string) (saslOn *ssa.BasicBlock, okEdge *ssa.BasicBlock, failEdge *ssa.BasicBlock, authCall *ssa.Call, why string) {
 	an.EachInstr(fn, func(ins ssa.Instruction) {
 		if call, ok := ins.(*ssa.Call); ok {
-			if f := call.Call.StaticCallee(); f != nil && f.Name() == authName {
+			if f := call.Call.StaticCallee(); f != nil && an.RefFuncName(f) == authName {
 				authCall = call
 			}
 		}
@@ -46,7 +46,7 @@ func authGate(fn *ssa.Function, authName string) (saslOn *ssa.BasicBlock, okEdge
 		return nil, nil, nil, nil, "authentication call not found"
 	}
 	// the If that tests the call's result
-	for _, b := range fn.Blocks {
+	for _, b := range an.Blocks(fn) {
 		_, ci := an.IfCond(b)
 		if ci == nil || !an.IsNilConst(ci.Y) || ci.X != ssa.Value(authCall) {
 			continue
@@ -58,7 +58,7 @@ func authGate(fn *ssa.Function, authName string) (saslOn *ssa.BasicBlock, okEdge
 		}
 	}
 	// the If that tests the configured mechanism (x.SASLMechanism != nil / pool.sasl != nil)
-	for _, b := range fn.Blocks {
+	for _, b := range an.Blocks(fn) {
 		_, ci := an.IfCond(b)
 		if ci == nil || !an.IsNilConst(ci.Y) || ci.Op != token.NEQ {
 			continue
@@ -117,7 +117,7 @@ func c18Dialer(p *load.Program, r *oblig.Report) {
 	var conn ssa.Value
 	an.EachInstr(fn, func(ins ssa.Instruction) {
 		if call, ok := ins.(*ssa.Call); ok {
-			if f := call.Call.StaticCallee(); f != nil && f.Name() == "NewConnWith" {
+			if f := call.Call.StaticCallee(); f != nil && an.RefFuncName(f) == "NewConnWith" {
 				conn = call
 			}
 		}
@@ -217,7 +217,7 @@ func c18Transport(p *load.Program, r *oblig.Report) {
 	var pc ssa.Value
 	an.EachInstr(fn, func(ins ssa.Instruction) {
 		if call, ok := ins.(*ssa.Call); ok {
-			if f := call.Call.StaticCallee(); f != nil && f.Name() == "NewConn" && f.Pkg != nil && f.Pkg.Pkg.Path() == protoPath {
+			if f := call.Call.StaticCallee(); f != nil && an.RefFuncName(f) == "NewConn" && f.Pkg != nil && f.Pkg.Pkg.Path() == protoPath {
 				pc = call
 			}
 		}
@@ -323,9 +323,9 @@ func c18AllowedRequests(p *load.Program, r *oblig.Report) {
 				return
 			}
 			// any of the specialised request writers (fetch, produce, list offsets) is forbidden here
-			if sc.Signature.Recv() != nil && an.NamedIs(sc.Signature.Recv().Type(), load.ModPath, "writeBuffer") && strings.Contains(sc.Name(), "Request") {
+			if sc.Signature.Recv() != nil && an.NamedIs(sc.Signature.Recv().Type(), load.ModPath, "writeBuffer") && strings.Contains(an.RefFuncName(sc), "Request") {
 				n++
-				r.Bad(rule, an.ShortFunc(f)+" → "+sc.Name(), p.Pos(call.Pos()), "no produce/fetch/list-offsets request during authentication", "reachable from authenticateSASL")
+				r.Bad(rule, an.ShortFunc(f)+" → "+an.RefFuncName(sc), p.Pos(call.Pos()), "no produce/fetch/list-offsets request during authentication", "reachable from authenticateSASL")
 			}
 		})
 	}
@@ -369,7 +369,7 @@ func c18AllowedRequests(p *load.Program, r *oblig.Report) {
 				return
 			}
 			sc := call.Call.StaticCallee()
-			if sc == nil || sc.Name() != "RoundTrip" || sc.Signature.Recv() == nil || !an.NamedIs(sc.Signature.Recv().Type(), protoPath, "Conn") {
+			if sc == nil || an.RefFuncName(sc) != "RoundTrip" || sc.Signature.Recv() == nil || !an.NamedIs(sc.Signature.Recv().Type(), protoPath, "Conn") {
 				return
 			}
 			m++
@@ -393,7 +393,7 @@ func c18RawFramed(p *load.Program, r *oblig.Report) {
 	var neg *ssa.Call
 	an.EachInstr(fn, func(ins ssa.Instruction) {
 		if call, ok := ins.(*ssa.Call); ok {
-			if f := call.Call.StaticCallee(); f != nil && f.Name() == "negotiateVersion" {
+			if f := call.Call.StaticCallee(); f != nil && an.RefFuncName(f) == "negotiateVersion" {
 				neg = call
 			}
 		}
@@ -405,7 +405,7 @@ func c18RawFramed(p *load.Program, r *oblig.Report) {
 	k, _ := an.ConstInt(an.Unwrap(neg.Call.Args[1]))
 	r.Check(k == 17, rule, "(*Conn).saslAuthenticate → the decision uses the negotiated SaslHandshake version", p.Pos(neg.Pos()), "API key 17 (SaslHandshake)", fmt.Sprintf("API key %d", k))
 	framed := false
-	for _, b := range fn.Blocks {
+	for _, b := range an.Blocks(fn) {
 		_, ci := an.IfCond(b)
 		if ci == nil || ci.Op != token.EQL {
 			continue
@@ -413,10 +413,10 @@ func c18RawFramed(p *load.Program, r *oblig.Report) {
 		if v, ok := an.ConstInt(ci.Y); ok && v == 1 && strings.Contains(argDesc(ci.X), "negotiateVersion#0") {
 			// true edge contains writeOperation (framed); false edge writes raw bytes
 			hasOp := false
-			for _, blk := range fn.Blocks {
+			for _, blk := range an.Blocks(fn) {
 				if blk == b.Succs[0] || b.Succs[0].Dominates(blk) {
 					for _, ins := range blk.Instrs {
-						if call, ok := ins.(*ssa.Call); ok && call.Call.StaticCallee() != nil && call.Call.StaticCallee().Name() == "writeOperation" {
+						if call, ok := ins.(*ssa.Call); ok && call.Call.StaticCallee() != nil && an.RefFuncName(call.Call.StaticCallee()) == "writeOperation" {
 							hasOp = true
 						}
 					}
@@ -490,7 +490,7 @@ func c18Loops(p *load.Program, r *oblig.Report) {
 			}
 			// find a test of errVal against nil; `switch { case err == nil: … }` included
 			var failStart *ssa.BasicBlock
-			for _, b := range fn.Blocks {
+			for _, b := range an.Blocks(fn) {
 				_, ci := an.IfCond(b)
 				if ci == nil || ci.X != errVal || !an.IsNilConst(ci.Y) {
 					continue
@@ -541,7 +541,7 @@ func c18Loops(p *load.Program, r *oblig.Report) {
 				if iff == nil {
 					continue
 				}
-				d := argDesc(iff.Cond)
+				d := argDesc(an.CondOf(iff))
 				if strings.Contains(d, "Next#0") || strings.Contains(d, "const:false") {
 					okP = true
 				}
@@ -578,8 +578,8 @@ func c18Mechanisms(p *load.Program, r *oblig.Report) {
 		name := ""
 		an.EachInstr(fn, func(ins ssa.Instruction) {
 			if call, ok := ins.(*ssa.Call); ok {
-				if f := call.Call.StaticCallee(); f != nil && strings.HasPrefix(f.Name(), "NewClient") {
-					name = f.Name()
+				if f := call.Call.StaticCallee(); f != nil && strings.HasPrefix(an.RefFuncName(f), "NewClient") {
+					name = an.RefFuncName(f)
 				}
 			}
 		})
@@ -593,7 +593,7 @@ func c18Mechanisms(p *load.Program, r *oblig.Report) {
 	okFmt := false
 	an.EachInstr(st, func(ins ssa.Instruction) {
 		call, ok := ins.(*ssa.Call)
-		if !ok || call.Call.StaticCallee() == nil || call.Call.StaticCallee().Name() != "Sprintf" {
+		if !ok || call.Call.StaticCallee() == nil || an.RefFuncName(call.Call.StaticCallee()) != "Sprintf" {
 			return
 		}
 		if c, ok := call.Call.Args[0].(*ssa.Const); ok && c.Value != nil && c.Value.ExactString() == `"\x00%s\x00%s"` {
